@@ -129,7 +129,12 @@ func Ob_C06_Complete_Escrows() {
 	sym.SetBound("Metadata.Orders", 0)
 	sym.SetBound("ExpiredData.Data", 0)
 	if sym.Tier() == "quick" {
-		sym.Assume(o.Operation != 2)
+		// the completion that deposits: the order is not completed yet (a later replica of a completed order moves no
+		// order money; its collateral side is Ob_C06_ShardPledge_NodeEscrow's subject)
+		sym.Assume(o.Operation != 2 && o.Status != ordertypes.OrderCompleted)
+		// the provider signs itself and has no node record to credit reputation to (authorisation is C10's subject)
+		_, hasNode := w.Node.GetNode(w.Ctx, msg.Provider)
+		sym.Assume(msg.Creator == msg.Provider && !hasNode && o.Replica >= 1 && o.Replica <= 2)
 		for _, id := range o.Shards {
 			s, f := w.Order.GetShard(w.Ctx, id)
 			sym.Assume(!f || s.Status != ordertypes.ShardMigrating)
